@@ -392,6 +392,37 @@ def law_bool_never_number(a: bool, b: Scalar, swap: bool) -> bool:
     return H.done(yq.outcome('$a %s $b' % OP, a=x, b=y) == ('nomatch',))
 
 
+def _iface_outcome(text, *args, **kwargs):
+    from yaql import yaql_interface
+    from yaql.language import exceptions as yexc
+    try:
+        return ('ok', yaql_interface.YaqlInterface(yq.ROOT.create_child_context(), yq.ENG)(text, *args, **kwargs))
+    except (yexc.NoMatchingFunctionException, yexc.NoMatchingMethodException):
+        return ('nomatch',)
+    except Exception as e:
+        return ('err', type(e).__name__)
+
+
+def law_bool_entries(a: bool, b: Scalar, swap: bool) -> bool:
+    """
+    pre: small(b, 2) and b is not None
+    pre: finding_key(OP, a, b) not in KNOWN
+    post: _
+    """
+    # the same law at the other ways a boolean gets into an arithmetic or ordering operator: handed in through the
+    # host-facing YaqlInterface (positionally and by keyword), written as a literal, written as a signed literal
+    lit = 'true' if a else 'false'
+    x, y = (b, a) if swap else (a, b)
+    ok = _iface_outcome('$1 %s $2' % OP, x, y) == ('nomatch',)
+    ok = ok and _iface_outcome('$p %s $q' % OP, p=x, q=y) == ('nomatch',)
+    ok = ok and yq.outcome(('$b %s %s' if swap else '%s %s $b') % ((OP, lit) if swap else (lit, OP)), b=b) == ('nomatch',)
+    for sign in ('-', '+', '- -'):
+        signed = '%s%s' % (sign, lit)
+        ok = ok and yq.outcome(signed) == ('nomatch',)
+        ok = ok and yq.outcome(('$b %s %s' if swap else '%s %s $b') % ((OP, signed) if swap else (signed, OP)), b=b) == ('nomatch',)
+    return H.done(ok)
+
+
 def conditions(tier, seed):
     t = 100 if tier == 'quick' else 400
     slen = 2 if tier == 'quick' else 3
@@ -430,6 +461,10 @@ def conditions(tier, seed):
     for op in ['+', '-', '*', '/', 'mod', '<', '<=', '>', '>=']:
         out.append({'name': 'bool_never_number[%s]' % op, 'func': 'law_bool_never_number', 'timeout': 60,
                     'param': {'op': op}, 'bounds': 'a bool, b non-null scalar, both operand orders'})
+    for op in ['+', '*', '<', '-', '/', 'mod', '>=']:
+        out.append({'name': 'bool_entries[%s]' % op, 'func': 'law_bool_entries', 'timeout': 100,
+                    'param': {'op': op}, 'bounds': 'a bool, b non-null scalar, both operand orders; the boolean arrives through '
+                                                   'YaqlInterface (positional, keyword), as a literal and as a signed literal'})
     if 'C15/bool-as-repetition-count' in KNOWN:
         out.append({'name': 'probe[bool-as-repetition-count]', 'func': 'probe_bool_repetition', 'timeout': 60,
                     'kind': 'probe', 'param': {'probe_key': 'C15/bool-as-repetition-count'},
@@ -486,7 +521,7 @@ def replay(cond, args):
         return {'reproduced': False}
     op = (cond.get('param') or {}).get('op', '')
     a, b = vals.get('a'), vals.get('b')
-    if cond['func'] in ('probe_bool_repetition', 'law_bool_never_number'):
+    if cond['func'] in ('probe_bool_repetition', 'law_bool_never_number', 'law_bool_entries'):
         if vals.get('swap'):
             a, b = b, a
     key = finding_key(op or '*', a, b) if cond['func'] in ('binop', 'probe_bool_repetition', 'law_bool_never_number') else None
@@ -508,6 +543,18 @@ def replay(cond, args):
                 if not outcomes_agree(g, e):
                     bad.append('%s with a=%r gives %r, reference %r' % (text, v, g, e))
         desc = 'evaluating with a=%r, then a=%r, then a=%r again in one process: %s' % (x, y, x, '; '.join(bad[:3]))
+    elif cond['func'] == 'law_bool_entries':
+        lit = 'true' if vals['a'] else 'false'
+        other = vals['b']
+        seen = []
+        for text, got in [('YaqlInterface: $1 %s $2' % op, _iface_outcome('$1 %s $2' % op, a, b)),
+                          ('literal: %s' % (('$b %s %s' % (op, lit)) if vals.get('swap') else ('%s %s $b' % (lit, op))),
+                           yq.outcome(('$b %s %s' % (op, lit)) if vals.get('swap') else ('%s %s $b' % (lit, op)), b=other)),
+                          ('signed literal: -%s' % lit, yq.outcome('-%s' % lit)), ('+%s' % lit, yq.outcome('+%s' % lit))]:
+            if got != ('nomatch',):
+                seen.append('%s -> %r' % (text, got))
+        desc = 'a boolean is accepted as a number (operands %r, %r): %s' % (a, b, '; '.join(seen) or 'see the condition')
+        key = None
     elif key:
         desc = '%r * %r is accepted (a boolean is taken as a repetition count)' % (a, b)
     else:
